@@ -36,6 +36,9 @@ func forEachEngineProgram(r *harness.Run, plans []famPlan, c03MaxN int, f func(w
 		total := uint64(n+1) * pow * c03Contexts
 		done := r.Parallel(total, func(w int, idx uint64) {
 			ctx := int(idx % c03Contexts)
+			if ctx == 7 {
+				return // the constant-expression context needs C03's const prefix; C03 covers it
+			}
 			x := idx / c03Contexts
 			defPos := int(x % uint64(n+1))
 			x /= uint64(n + 1)
